@@ -146,6 +146,11 @@ func (P *Prog) verifyFunctionCase(fn *ssa.Function, con *Contract, caseParam str
 				lv := vc.loadPlace(st, v.P)
 				vc.assumeWF(st, lv, el)
 				names[fv.Name()] = SVal{T: lv, GoT: el}
+			} else if isPointer(el) {
+				// a captured pointer variable (a method receiver, typically): the name is the pointer it holds
+				lv := vc.loadPlace(st, v.P)
+				vc.assumeWF(st, lv, el)
+				names[fv.Name()] = vc.svalOfLoaded(lv, el)
 			}
 		}
 	}
